@@ -268,7 +268,10 @@ def run(ctx: Ctx):
             def still(ops, case=case, key=key):
                 fs, *_ = _eval_case(dict(case, ops=ops))
                 return any(json.dumps(f["sig"], sort_keys=True) == key for f in fs)
-            small_ops = shrink_ops(case["ops"], still, budget=120) if len(case["ops"]) > 1 else case["ops"]
+            # the first few distinct signatures are minimised; the rest are reported as found (a defect that touches every
+            # node class produces dozens of signatures, and each shrink step re-runs implementation and model)
+            budget = 120 if len(reported) <= 6 else 12 if len(reported) <= 16 else 0
+            small_ops = shrink_ops(case["ops"], still, budget=budget) if len(case["ops"]) > 1 and budget else case["ops"]
             small = dict(case, ops=small_ops)
             fs, lines2, impl2, model2 = _eval_case(small)
             hit = next((f for f in fs if json.dumps(f["sig"], sort_keys=True) == key), None)
